@@ -49,5 +49,8 @@ def ops (c : Affine.Crv) : PointOps Pt where
     | A => .ok A
   containsPoint x y := Curve.containsPoint (crvOf c) x y
   mkPoint x y := .jac ⟨crvOf c, x, y, 1, some c.n, false⟩
+  fromAffine A := match A with
+    | .aff Af => .jac (pjFromAffine Af)
+    | A => A        -- INFINITY becomes a `PointJacobi(None, None, None, 1)`: its `x()` is None, as for INFINITY itself
 
 end Ecdsa.OnCurve
